@@ -185,12 +185,13 @@ def reference(kind, content, refdir, stats):
 # --------------------------------------------------------------------------------------
 ENTRIES = ['client', 'client_params', 'cli', 'main_argv', 'hip']
 OUT_FORMS = ['absent', 'rel', 'rel_nested', 'rel_nosuffix', 'rel_oneletter', 'rel_repeated', 'abs', 'abs_nosuffix',
-             'rel_tilde', 'rel_tildedir', 'rel_symlink', 'rel_dotdot', 'rel_dot']
+             'rel_tilde', 'rel_tildedir', 'rel_symlink', 'rel_dotdot', 'rel_dot', 'rel_upper', 'rel_dotted', 'rel_txt']
 CWD_DIRS = ['cwd0', 'cwd with space', 'deep/x/y/z', 'decoy', 'w']
 ARGVS = [['caller'], ['pytest', '-ra', '-q'], ['prog', 'a.txt', 'b.out'], []]
 OUT_NAMES = {'rel': 'result.out', 'rel_nested': 'sub dir/nested.out', 'rel_nosuffix': 'r', 'rel_oneletter': 'o.t',
              'rel_repeated': 'out.d/out', 'abs': 'res.abs.out', 'abs_nosuffix': 'absreport', 'rel_tilde': '~run1/out.txt',
-             'rel_tildedir': '~/out.txt', 'rel_symlink': 'latest.out', 'rel_dotdot': '../sibling dir/out.txt', 'rel_dot': './dot.out'}
+             'rel_tildedir': '~/out.txt', 'rel_symlink': 'latest.out', 'rel_dotdot': '../sibling dir/out.txt', 'rel_dot': './dot.out',
+             'rel_upper': 'Report.OUT', 'rel_dotted': 'v1.2/res.v3.out', 'rel_txt': 'case.txt'}
 FAULTS = ['enospc', 'eio', 'eacces', 'vanish', 'cancel']
 FAULT_AT = [1, 2, 3, 4, 5, 6, 7, 8, 10, 12, 15, 20, 25, 30, 40]
 SLOT_PATHS = ['in/req0.txt', 'in dir/req 1.txt', 'deep/a/b/req2.txt']
@@ -496,6 +497,8 @@ class Exec:
         self.last_failed_client = set()
         self.pending_fault = None
         self.client_text = {}
+        self.returned = []        # (result object, canonical parsed form at the time it was returned, op index)
+        self.prev_parse = None    # (report text, canonical parse) of the previous report of this history
         self.client_seen = {}     # (client, slot) -> content hash of the last successful run through a caching client
 
     def live(self):
@@ -616,6 +619,17 @@ class Exec:
                 k.armed = None
                 self.pending_fault = None
             self.ops_done += 1
+        # results handed out earlier must still say what they said when they were returned (a result is a value, not a view
+        # of a file that later runs overwrite)
+        for res, was, opi in self.returned:
+            try:
+                now_ = canon_parsed(res.result)
+            except Exception as e:  # noqa: BLE001
+                now_ = f'raised {type(e).__name__}'
+            if now_ != was:
+                self.V('C10', 'result_changed_after_return', 'later_operations',
+                       f'the result returned by operation {opi} reads differently at the end of the history: ' + _first_diff(now_, was))
+                break
 
     # ---- operations ------------------------------------------------------------------
     def expected(self, kd, txt):
@@ -832,6 +846,8 @@ class Exec:
                 self.result_digest.update(sha(parsed).encode())
             if served_from_cache:
                 self.probe('served_from_cache')
+            if result is not None and parsed is not None and kd == 'geo':
+                self.returned.append((result, parsed, self.ops_done))
             if entry == 'client' and op['client'] != 1:
                 self.client_seen[(op['client'], op['slot'])] = sha(str(eff))
                 self.client_text[(op['client'], op['slot'])] = eff
@@ -871,6 +887,32 @@ class Exec:
         finally:
             if kcur is not None:
                 kcur.atomic -= 1
+        if first is not None and self.prev_parse is not None and self.prev_parse[0] != report:
+            # parser state must be per instance: parsing another report in between must not change what an earlier report
+            # parses to
+            pp = os.path.join(self.sb, 'tmp', 'parse_prev.out')
+            with K._real['open'](pp, 'w', encoding='utf-8') as f:
+                f.write(self.prev_parse[0])
+            kc = K.cur()
+            if kc is not None:
+                kc.atomic += 1
+            try:
+                again = canon_parsed(GeophiresXResult(pp).result)
+                self.parse_stats['parses'] += 1
+                a_ = json.loads(again)
+                b_ = json.loads(self.prev_parse[1])
+                a_.get('metadata', {}).pop('output_file_path', None)
+                b_.get('metadata', {}).pop('output_file_path', None)
+                if a_ != b_:
+                    self.V('C10', 'order_dependent_parse', 'other_report_parsed_in_between',
+                           'an earlier report parses differently after another report was parsed: ' + _first_diff(again, self.prev_parse[1]))
+            except Exception as e:  # noqa: BLE001
+                self.V('C10', 'parse_error', type(e).__name__, f're-parsing an earlier report raised: {str(e)[:160]}')
+            finally:
+                if kc is not None:
+                    kc.atomic -= 1
+        if first is not None:
+            self.prev_parse = (report, first)
         if res is not None:
             problems, st = tokenizer.check(report, res)
             for kkey in st:
